@@ -99,10 +99,15 @@ class NetWorld(object):
     class ExpiringSwitch(ExpireMixin, SoftwareSwitch):
       pass
     ports = kw.pop("ports", nports)
+    numbers = None
+    if not isinstance(ports, int):
+      numbers, ports = list(ports), 0       # explicit port numbers
     sw = ExpiringSwitch(dpid=dpid, ports=ports,
                         miss_send_len=kw.pop("miss_send_len", 128),
                         max_buffers=kw.pop("max_buffers", 100),
                         expire_period=kw.pop("expire_period", 2), **kw)
+    for no in numbers or ():
+      sw.add_port(sw.generate_port(no, name="p%d" % no))
     ns = NetSwitch(self, dpid, sw, None)
     self.switches[dpid] = ns
     sw.addListener(DpPacketOut, lambda e, ns=ns: self._on_out(ns, e))
